@@ -52,3 +52,104 @@ def constrain(c: Any) -> None:
     with NoTracing():
         from crosshair.statespace import context_statespace
         context_statespace().add(_var(c))
+
+
+def regex_match(pattern: str, s: Any, mode: str = "fullmatch") -> Any:
+    """
+    ``re.fullmatch(pattern, s) is not None`` (or ``re.match``) as ONE solver term for a symbolic ``s`` of fixed length.
+
+    The pattern is read by CPython's own ``re._parser`` (vf.rx.parse_python), compiled to an NFA and the layered
+    reachability formula over the code points of ``s`` is built without forking the path (CrossHair's own regex
+    support forks per character class).  In concrete runs this is plain ``re``.
+    """
+    import re
+    if not symbolic():
+        m = re.fullmatch(pattern, s) if mode == "fullmatch" else re.match(pattern, s)
+        return m is not None
+    cps = codepoints(s)
+    n = len(cps)
+    from crosshair.tracers import NoTracing
+    with NoTracing():
+        from crosshair.libimpl.builtinslib import SymbolicBool
+        import z3
+        from vf import rx
+        n = int(n)
+        key = (pattern, n, mode)
+        nfa = _NFA_CACHE.get(key)
+        if nfa is None:
+            nfa = rx.build(rx.parse_python(pattern), max(n, 1))
+            _NFA_CACHE[key] = nfa
+        terms = [_var(c) for c in cps]
+        if n > 0 and mode != "fullmatch":
+            raise NotImplementedError("only fullmatch is needed so far ('$' before a trailing newline needs a case split)")
+        f = rx.accept_formula(nfa, terms, "fullmatch", False)
+        if n > 0:
+            # Python's '$' also matches before a trailing '\n': fullmatch semantics make that irrelevant except for
+            # patterns ending in '$' -- handled by the case split below
+            f2 = z3.And(terms[-1] == 10, rx.accept_formula(nfa, terms, "fullmatch", True))
+            f = z3.Or(z3.And(terms[-1] != 10, f), f2)
+        return SymbolicBool(z3.simplify(f))
+
+
+_NFA_CACHE: dict = {}
+
+
+def codepoints(s: Any) -> list:
+    """
+    The code points of a (possibly symbolic) string as a list of ints / symbolic ints.
+
+    ``ord(s[i])`` on a concatenation of concrete and symbolic pieces costs one solver query per index (CrossHair
+    compares ``i`` with the symbolic lengths of the pieces); walking the concatenation tree once and realizing the
+    length of each symbolic piece (fixed by the harness' assumptions) is two orders of magnitude cheaper.
+    """
+    if not symbolic():
+        return [ord(c) for c in s]
+    from vf.common import realize
+    from crosshair.tracers import NoTracing
+    with NoTracing():
+        from crosshair.libimpl.builtinslib import LazyIntSymbolicStr
+        from crosshair.simplestructs import SequenceConcatenation
+        pieces: list = []
+        if type(s) is str:  # (the real type: ``type`` is patched under tracing)
+            return [ord(c) for c in s]
+        if isinstance(s, LazyIntSymbolicStr):
+            stack = [s._codepoints]
+            while stack:
+                x = stack.pop()
+                if isinstance(x, SequenceConcatenation):
+                    stack.append(x._second)
+                    stack.append(x._first)
+                else:
+                    pieces.append(x)
+        else:
+            pieces = None  # type: ignore
+    if pieces is None:
+        n = realize(len(s))
+        return [ord(s[i]) for i in range(n)]
+    out: list = []
+    for piece in pieces:
+        if type(piece) is list:
+            out.extend(piece)
+        else:
+            n = realize(len(piece))
+            for i in range(n):
+                out.append(piece[i])
+    return out
+
+
+def contains(hay: Any, needle: Any) -> Any:
+    """``needle in hay`` as one solver term (CrossHair's own ``in`` forks per candidate position); lengths must be fixed."""
+    if not symbolic():
+        return needle in hay
+    nd = codepoints(needle)
+    hy = codepoints(hay)
+    n, m = len(nd), len(hy)
+    if n == 0:
+        return True
+    res: Any = False
+    for p in range(m - n + 1):
+        t: Any = True
+        for i in range(n):
+            t = t & (hy[p + i] == nd[i])
+        res = res | t
+    return res
